@@ -494,6 +494,7 @@ func c12HeadVariants() []c12Head {
 		k("hash-string", set(`"x"`, "hash")),
 		k("hash-{}", set(`{}`, "hash")),
 		k("hash-other", set(`"@otherhash"`, "hash")),
+		k("hash-same-digest-other-codec", set(`"@selfrawcodec"`, "hash")),
 		k("next-null", set(`null`, "next")),
 		k("refs-null", set(`null`, "refs")),
 		k("no-next-no-refs", del("next"), del("refs")),
@@ -992,7 +993,13 @@ func (w *c12World) render(m *c12Msg, newMsg []byte) ([]byte, error) {
 				if err := d.Decode(&v); err != nil {
 					return nil, err
 				}
-				cur[last] = resolve(v)
+				rv := resolve(v)
+				if sv, ok := rv.(string); ok && sv == "@selfrawcodec" {
+					// the head's own hash re-encoded with another codec: the same multihash digest,
+					// another CID -- the head's content does not hash to it any more
+					rv = c12SameDigestOtherCodec(cur[last])
+				}
+				cur[last] = rv
 			}
 		}
 		heads = append(heads, o)
@@ -1312,4 +1319,29 @@ func c12ChildFrames(b c12Batch) error {
 		c12Emit("END", en)
 	}
 	return nil
+}
+
+// c12SameDigestOtherCodec takes the JSON form of a CID ({"/": "<cid>"} or a string) and
+// returns the same form for the CID with the same multihash and the raw codec.
+func c12SameDigestOtherCodec(v interface{}) interface{} {
+	str := ""
+	switch x := v.(type) {
+	case string:
+		str = x
+	case map[string]interface{}:
+		str, _ = x["/"].(string)
+	}
+	c, err := cid.Decode(str)
+	if err != nil {
+		return v
+	}
+	codec := uint64(cid.Raw)
+	if c.Prefix().Codec == codec {
+		codec = cid.DagCBOR
+	}
+	alt := cid.NewCidV1(codec, c.Hash())
+	if _, isMap := v.(map[string]interface{}); isMap {
+		return map[string]interface{}{"/": alt.String()}
+	}
+	return alt.String()
 }
